@@ -193,7 +193,6 @@ func (b *assignmentBuilder) structFieldAndStructGettersAndFields(lhs bmodel.Node
 
 		if util.IsStructType(lhs.ExprType()) &&
 			util.IsStructType(rhs.ExprType()) {
-			nested = true
 			nestStruct := gmodel.NestStruct{}
 			if util.IsPtr(lhs.ExprType()) {
 				nestStruct.InitExpr = fmt.Sprintf("%v = %v{}", lhs.AssignExpr(), b.imports.TypeName(lhs.ExprType()))
@@ -205,6 +204,9 @@ func (b *assignmentBuilder) structFieldAndStructGettersAndFields(lhs bmodel.Node
 			if err == nil && 0 < len(nestStruct.Contents) {
 				a = nestStruct
 			}
+			// A member-wise copy that yields nothing (no member the package can see) is not a match:
+			// the field must still be reported.
+			nested = err != nil || 0 < len(nestStruct.Contents)
 		}
 		return true
 	}
